@@ -47,7 +47,8 @@ def run(ctx):
     ctx.rule = ("for each model file (the shipped resources/model.bin, generated models with tag models, and a model with "
                 "multi-byte varint lengths): every proper prefix through read_slice and read (plain, 1-byte chunks, interrupted), "
                 "an I/O fault at every position of reader and writer, every single-byte header corruption (2 values), 4 trailing "
-                "byte strings, chunked/interrupted writers; distinct non-trivial = distinct (file, operation, position) triples")
+                "byte strings, chunked/interrupted writers and readers of the complete file; strings of 4096+ bytes; a 23 MB model; the three "
+                "model-writing tools with a sink that refuses every byte; distinct non-trivial = distinct (file, operation, position) triples")
     design(ctx)
     models = []
     sc = _score.generate(ctx, True, only=["F6-mixed"], record=False)
@@ -64,6 +65,11 @@ def run(ctx):
                                  "tng": [{"ng": [3, 3], "w": [((i * 5) % 17) - 8 for i in range(2 * tw - 1)]}],
                                  "dict": [{"ng": [0x3042, 0x3042], "w": [4, -9, 4], "c": []}], "tags": []},
                        "texts": [[0x3042, 0x3042, 0x3042], [0x3042]]})
+    # single strings of 4096 / 5000 bytes (dictionary comments): larger than any internal buffering granule of a writer
+    models.append({"model": {"bias": -2, "cw": 1, "tw": 1, "cng": [{"ng": [0x3042], "w": [3, -4]}], "tng": [],
+                             "dict": [{"ng": [0x3042, 97], "w": [1, -2, 3], "c": [120] * 4096},
+                                      {"ng": [97], "w": [5, -6], "c": [0x3042] * 1667 + [121] * 3}], "tags": []},
+                   "texts": [[0x3042, 97, 97], [97]]})
     wd = os.path.join(vlib.WORK, "record")
     os.makedirs(wd, exist_ok=True)
     mp = os.path.join(wd, "C07-models.ndjson")
@@ -78,6 +84,29 @@ def run(ctx):
     ctx.evaluations += len(events)
     for e in events:
         ctx.nontriv((e["file"], e["op"], e.get("cut", e.get("fault", e.get("pos", str(e.get("trail")) + str(e.get("chunk")) + str(e.get("intr")))))))
+    # the command-line tools that write model files, with a sink that refuses every byte (/dev/full): the writer fails part-way
+    # (at the latest when the compressed stream is finished), so the tool must report an error - never exit 0 with a broken file
+    import subprocess
+    if os.path.exists("/dev/full"):
+        cli = vlib.build_cli()
+        tw = os.path.join(vlib.WORK, "cli07")
+        os.makedirs(tw, exist_ok=True)
+        mj, mz = os.path.join(tw, "m.json"), os.path.join(tw, "m.zst")
+        json.dump(models[0]["model"], open(mj, "w"))
+        vlib.run_harness(binp, ["mkmodel", mj, mz], name="mkmodel")
+        open(os.path.join(tw, "c.tok"), "w").write("aあ a\nあ aa\n")
+        runs = [("manipulate_model", ["--model-in", mz, "--model-out"]),
+                ("convert_kytea_model", ["--model-in", "/repo/resources/kytea-model.bin", "--model-out"]),
+                ("train", ["--tok", os.path.join(tw, "c.tok"), "--charw", "1", "--charn", "1", "--typew", "1", "--typen", "1", "--solver", "1", "--model"])]
+        for tool, args in runs:
+            for sink in ("/dev/full", os.path.join(tw, tool + ".out")):
+                p = subprocess.run([os.path.join(cli, tool)] + args + [sink], stdout=subprocess.PIPE, stderr=subprocess.PIPE, timeout=300,
+                                   env=vlib.cargo_env())
+                good_sink = sink != "/dev/full"
+                events.append({"id": len(events), "ev": "file", "file": tool, "op": "tool_write", "len": 1, "fault": 1 if good_sink else 0,
+                               "outcome": "ok" if p.returncode == 0 else ("err" if p.returncode > 0 and p.returncode < 128 and b"panicked" not in p.stderr else "panic"),
+                               "good_sink": good_sink})
+                ctx.evaluations += 1
     rej, _ = vlib.validate_trace(ctx, "C07-files", "Trace_Files", events, constants={"Hdr": 25}, chunk=15000)
     byid = {e["id"]: e for e in events}
     for rid in rej:
